@@ -271,6 +271,9 @@ Proof.
     destruct r; simpl; repeat split; auto; eapply HooksStep_nodup; eauto.
   - repeat split; assumption.
   - repeat split; assumption.
+  - (* reload: same core, empty stacks *) repeat split; [assumption|constructor|constructor].
+  - repeat split; assumption.
+  - repeat split; assumption.
 Qed.
 
 Lemma HInv_reach e : reach e -> HInv e.
